@@ -475,3 +475,70 @@ def target_whithend_matrix():
 
 def targets():      # noqa: F811
     return _targets_c11_stages() + [target_whithend_matrix()]
+
+
+_targets_before_window_options = targets
+
+
+def target_window_options():
+    """`_generate_window_options`: custom weights are used as they are (one option, "custom"); a named window gives exactly
+    `_generate_weights(log_f, window, center, width)` with the caller's log-frequencies, centre and width -- not clamped, shifted or
+    rescaled: the points outside `center +- width/2` must stay at weight zero whatever the data range --; "auto" gives one such entry
+    per known window function.  Real function on EUF terms with a recording `_generate_weights` (E3)."""
+    from . import dataflow as DF
+    from .dataflow import T
+    WGT_ = "analysis/zhit/weights"
+
+    def run(sess: Session):
+        class Prog:
+            def __init__(self):
+                self.n = 0
+
+            def set_message(self, m):
+                pass
+
+            def increment(self):
+                self.n += 1
+        table = {"boxcar": object(), "hann": object(), "triang": object()}
+        for mode in ("custom", "named", "auto"):
+            calls = []
+
+            def gen(log_f, window, center, width):
+                calls.append((log_f, window, center, width))
+                return T.var(f"weights[{window}]")
+
+            class LogF:
+                """the log-frequencies: whatever is asked of them (min, max, ...) is an opaque term"""
+                e = z3.Const("log_f", DF.V)
+
+                def min(self):
+                    return T.var("min(log_f)")
+
+                def max(self):
+                    return T.var("max(log_f)")
+            log_f, center, width, custom = T.var("log_f"), T.var("center"), T.var("width"), T.var("custom_weights")
+            log_f.__dict__ if False else None
+            ns = {"_WINDOW_FUNCTIONS": dict(table), "_initialize_window_functions": lambda: None, "_generate_weights": gen, "len": len, "min": min, "max": max, "float": lambda x: x}
+            O.load(WGT_, ["_generate_window_options"], ns)
+            prog = Prog()
+            DF.reset_fallback(True)
+            out = ns["_generate_window_options"](custom if mode == "custom" else None, log_f, "auto" if mode == "auto" else "hann", center, width, prog)
+            tag = f" [{mode}]"
+            if mode == "custom":
+                sess.check("post", [], z3.BoolVal(isinstance(out, dict) and list(out) == ["custom"] and out["custom"] is custom and not calls and prog.n == 1), 0, label="custom weights are the only option, as given" + tag)
+                continue
+            names = ["hann"] if mode == "named" else list(table)
+            ok = isinstance(out, dict) and list(out) == names and len(calls) == len(names) and prog.n == len(names)
+            sess.check("post", [], z3.BoolVal(ok), 0, label="one option per requested window function, one step each" + tag)
+            if not ok:
+                continue
+            for (lf, w, c_, wd), name in zip(calls, names):
+                sess.check("post", [], z3.BoolVal(w == name and str(out[name].e) == f"weights[{name}]"), 0, label=f"the option of window {name} is _generate_weights of that window" + tag)
+                DF.eq_check(sess, f"window {name}: the weights are generated on the caller's log-frequencies" + tag, lf, log_f)
+                DF.eq_check(sess, f"window {name}: with the caller's centre (not clamped into the data range)" + tag, c_, center)
+                DF.eq_check(sess, f"window {name}: with the caller's width" + tag, wd, width)
+    return (f"{WGT_}:_generate_window_options", WGT_, "_generate_window_options", run)
+
+
+def targets():      # noqa: F811
+    return _targets_before_window_options() + [target_window_options()]
